@@ -169,11 +169,10 @@ class Evaluator(object):
             out = []
             for t in R:
                 best = -INF
-                for t1 in range(0, t + 1):
-                    v = q[t1]
-                    for t2 in range(t1 + 1, t + 1):
-                        v = min(v, p[t2])
-                    best = max(best, v)
+                m = INF                      # min of p over (t1, t]
+                for t1 in range(t, -1, -1):
+                    best = max(best, min(q[t1], m))
+                    m = min(m, p[t1])
                 out.append(best)
             return out
         if k == 'until':
@@ -182,11 +181,10 @@ class Evaluator(object):
             out = []
             for t in R:
                 best = -INF
+                m = INF                      # min of p over [t, t1)
                 for t1 in range(t, n):
-                    v = q[t1]
-                    for t2 in range(t, t1):
-                        v = min(v, p[t2])
-                    best = max(best, v)
+                    best = max(best, min(q[t1], m))
+                    m = min(m, p[t1])
                 out.append(best)
             return out
         if k in ('once_b', 'historically_b'):
